@@ -530,6 +530,13 @@ def execute_diff(sc) -> Outcome:
             sa, sb = summary(a), summary(b)
             if short and sa[0] == sb[0] == "exc" and sa[1].endswith("Timeout") and sb[1].endswith("Timeout"):
                 continue  # which of the 0.06 s limits expired first is a matter of timing
+            stall = (sc.get("fault") or {}).get("kind") in ("stall", "tls-stall", "connect-stall", "read-stall")
+            if short and stall and sa[0] == sb[0] == "exc" and sa[1].endswith("Timeout") != sb[1].endswith("Timeout"):
+                # a silent peer: one variant reports an expired limit, the other an error. Load can make a DIFFERENT limit expire (a Timeout class
+                # again) or none at all, but it cannot turn silence into a network / protocol error: the variants disagree about the class
+                vio.append(V("C18", "diff-real-backend", f"{what}: request {i}: sync -> {sa[1]}, {variant} -> {sb[1]} for a peer that is silent "
+                             f"({a['exc']['msg'][:80]!r} vs {b['exc']['msg'][:80]!r})", conn=sc["kind"], variant=variant, fault=sc["fault"]["kind"]))
+                break
             if short and ((sa[0] == "exc" and sa[1].endswith("Timeout")) or (sb[0] == "exc" and sb[1].endswith("Timeout"))):
                 break  # a 0.06 s timeout may also expire in a step the fault did not touch (busy machine): what follows is not comparable
             if sa != sb:
@@ -696,7 +703,12 @@ def upgrade_scenarios(draw):
         else:
             script.append(["read", draw(st.sampled_from([1, 2, 10, 100, 4096, 65536]))])
     return {"kind": draw(st.sampled_from(UPGRADE_KINDS)), "variant": draw(st.sampled_from(VARIANTS)), "d": d, "script": script,
-            "ragged_close": draw(st.booleans())}
+            "ragged_close": draw(st.booleans()), "duplex": draw(st.booleans())}
+
+
+DUPLEX_KINDS = ("direct-h1", "socks-h1", "socks-auth-h1")  # full-duplex use from two threads / tasks is exercised on plain-TCP streams only (one SSL object must
+#                                                            not be driven from two threads, and the TLS stream wrappers are not what the property is about)
+DUPLEX_T = 4.0
 
 
 def execute_upgrade(sc) -> Outcome:
@@ -712,6 +724,8 @@ def execute_upgrade(sc) -> Outcome:
     res = {"reads": [], "exc": None, "status": None, "in_pool_after": None}
     expected = bytearray(lead)
     variant = sc["variant"]
+    duplex = bool(sc.get("duplex")) and sc["kind"] in DUPLEX_KINDS
+    dup = {}
 
     def steps():
         """generator of ("write", data) / ("read", n); reads only while something is owed, as a real read would block otherwise"""
@@ -745,6 +759,25 @@ def execute_upgrade(sc) -> Outcome:
                                 data = ns.read(arg, timeout=LONG)
                                 res["reads"].append(data)
                                 got[0] += len(data)
+                        if duplex and sum(map(len, res["reads"])) == len(expected):
+                            # full duplex: a reader is parked on live data (nothing is pending) while another thread writes; the peer answers the write
+                            import threading
+                            import time as _t
+
+                            def reader():
+                                try:
+                                    dup["data"] = ns.read(65536, timeout=DUPLEX_T)
+                                except Exception as exc:
+                                    dup["read_exc"] = type(exc).__name__
+                                dup["t_read_end"] = _t.monotonic()
+
+                            th = threading.Thread(target=reader, daemon=True)
+                            th.start()
+                            _t.sleep(0.15)
+                            ns.write(b"duplex-ping", timeout=LONG)
+                            dup["t_write_done"] = _t.monotonic()
+                            th.join(DUPLEX_T + 5)
+                            dup["ran"] = True
                     res["in_pool_after"] = [repr(c) for c in pool.connections]
                     pool.close()
                 else:
@@ -760,6 +793,24 @@ def execute_upgrade(sc) -> Outcome:
                                     data = await ns.read(arg, timeout=LONG)
                                     res["reads"].append(data)
                                     got[0] += len(data)
+                            if duplex and sum(map(len, res["reads"])) == len(expected):
+                                import time as _t
+
+                                import anyio
+
+                                async def reader():
+                                    try:
+                                        dup["data"] = await ns.read(65536, timeout=DUPLEX_T)
+                                    except Exception as exc:
+                                        dup["read_exc"] = type(exc).__name__
+                                    dup["t_read_end"] = _t.monotonic()
+
+                                async with anyio.create_task_group() as tg:
+                                    tg.start_soon(reader)
+                                    await anyio.sleep(0.15)
+                                    await ns.write(b"duplex-ping", timeout=LONG)
+                                    dup["t_write_done"] = _t.monotonic()
+                                dup["ran"] = True
                         res["in_pool_after"] = [repr(c) for c in pool.connections]
                         await pool.aclose()
 
@@ -797,11 +848,27 @@ def execute_upgrade(sc) -> Outcome:
         diff = next((i for i in range(n) if got[i] != expected[i]), n)
         vio.append(V("C17", "bytes-lost" if len(got) < len(expected) else "bytes-wrong", f"{what}: the handed-over stream yielded {len(got)} bytes, the server sent "
                      f"{len(expected)} after the head (first difference at offset {diff}: got {got[diff:diff + 12]!r}, sent {bytes(expected[diff:diff + 12])!r})", **base))
+    if dup.get("ran") and res["exc"] is None:
+        if dup.get("data") == b"DUPLEX-PING":
+            pass
+        elif dup.get("read_exc") == "ReadTimeout" and dup.get("t_write_done", 0) >= dup.get("t_read_end", 1e18):
+            vio.append(V("C17", "write-blocked-by-pending-read", f"{what}: with a read() pending on the handed-over stream (nothing to read yet) a write() from another "
+                         f"{'thread' if variant == 'sync' else 'task'} did not go out until that read had timed out after {DUPLEX_T} s - writes do not pass straight through",
+                         **base))
+        elif dup.get("read_exc") == "ReadTimeout":
+            pass  # the write went out in time but the answer took more than DUPLEX_T (a busy machine): inconclusive
+        elif dup.get("data") is not None and b"DUPLEX-PING".startswith(dup["data"]) and dup["data"]:
+            pass  # a partial answer (the kernel may split it)
+        else:
+            vio.append(V("C17", "bytes-wrong", f"{what}: full-duplex step: the pending read returned {dup.get('data')!r} / {dup.get('read_exc')} instead of the "
+                         "peer's answer to the write", **base))
     if res["in_pool_after"]:
         vio.append(V("C17", "returned-to-pool", f"{what}: after the upgraded response was closed the pool still lists {res['in_pool_after']}", **base))
     if not_closed:
         vio.append(V("C17", "socket-not-closed", f"{what}: connection(s) {not_closed} still open after the pool was closed", **base))
     tags = [sc["kind"], "variant-" + variant, f"leading={'0' if not sc['d'] else ('small' if sc['d'] < 1000 else 'big')}"]
+    if dup.get("ran"):
+        tags.append("full-duplex-step")
     return Outcome(vio[:4], tags, sc["d"] > 0 or any(o[0] == "write" for o in sc["script"]), info={"reads": len(res["reads"]), "bytes": len(got)})
 
 
